@@ -1,13 +1,16 @@
 from typing import Callable, Iterable
 
-from ..engine import ComputableHashEdge, Edge
+from ..engine import ComputableHashBase, ComputableHashEdge, Edge
 from .edges import EdgeFactory, Function, FunctionBase, FunctionWrapper, TypedEdge
 from .nodes import Default, Intermediate, NodeType, NodeTypes
 
 
 class HashByValue(FunctionWrapper):
     def _wrap(self, edge: Edge, inputs: NodeTypes, output: NodeType) -> Iterable[TypedEdge]:
-        yield TypedEdge(ComputableHashEdge(edge), inputs, output)
+        # impure and other by-value edges are already hashed by value
+        if not isinstance(edge, ComputableHashBase):
+            edge = ComputableHashEdge(edge)
+        yield TypedEdge(edge, inputs, output)
 
 
 class CombinedHashByValue(EdgeFactory):
